@@ -647,7 +647,9 @@ class TransactionResult:
 
                 int_table.insert(packed)
 
-        return Result(env_table, lrn_table, val_table, int_table, exp_dict)
+        result = Result(env_table, lrn_table, val_table, int_table, exp_dict)
+        result._no_rows = set(k for k,v in int_rows.items() if not v.get('_packed'))
+        return result
 
 @dataclass
 class Points:
@@ -991,6 +993,7 @@ class Result:
         int_rows = int_rows if int_rows is not None else Table(columns=['environment_id','learner_id','evaluator_id','index'])
 
         self.experiment = args[4] if len(args) == 5 else {}
+        self._no_rows   = set() #recorded evaluations that gave no interactions (they aren't in any table)
 
         self._environments = env_rows if isinstance(env_rows,Table) else Table(columns=env_rows[0]).insert(env_rows[1:])
         self._learners     = lrn_rows if isinstance(lrn_rows,Table) else Table(columns=lrn_rows[0]).insert(lrn_rows[1:])
@@ -1014,6 +1017,14 @@ class Result:
             value['full_name'] = f"{lrn_id}. {family}{params}" if family != 'vw' else f"{lrn_id}. {family}({value['args']}, seed={value['seed']})"
 
         self._plotter = MatplotPlotter()
+
+    @property
+    def evaluated(self) -> set:
+        """The (environment_id, learner_id, evaluator_id) of every evaluation in the Result.
+
+        This includes evaluations that were recorded in a result file without any interactions.
+        """
+        return set(zip(*self._interactions[['environment_id','learner_id','evaluator_id']])) | self._no_rows
 
     @property
     def learners(self) -> Table:
@@ -1059,6 +1070,7 @@ class Result:
         result_copy._evaluators   = self.evaluators.copy()
         result_copy._interactions = self.interactions.copy()
         result_copy.experiment    = self.experiment
+        result_copy._no_rows      = self._no_rows
         result_copy._env_cache    = self._env_cache
         result_copy._lrn_cache    = self._lrn_cache
         result_copy._val_cache    = self._val_cache
